@@ -13,7 +13,21 @@
 (* equals it.  Texts that the ES5 grammar rejects but the web-compatibility  *)
 (* grammar accepts are reported as skipped.                                  *)
 EXTENDS C10
-CONSTANT NB
+CONSTANTS NB, C10Dev
+LI(dv) == INSTANCE RegExpSpec WITH Dev <- dv       \* the specification under an arbitrary set of deviations
+(* the outcome of a recorded case under the set dv (same shape as Expect of C10.tla, family "strm") *)
+ExpectV(dv, c) ==
+    LET k == LI(dv)!RxConstructF(c.src, c.flags, c.form)
+        X0 == [k.X EXCEPT !.li = c.li]
+        x == CASE c.m = "ctor" -> [R |-> X0, v |-> StrV(<<99, 111, 110, 115, 116, 114, 117, 99, 116, 101, 100>>)]
+               [] c.m = "exec" -> (LET y == LI(dv)!RxExec(X0, c.s) IN [R |-> y.R, v |-> y.v])
+               [] c.m = "test" -> LI(dv)!RxTest(X0, c.s)
+               [] c.m = "match" -> LI(dv)!RxStrMatch(X0, c.s)
+               [] c.m = "search" -> LI(dv)!RxStrSearch(X0, c.s)
+               [] c.m = "split" -> LI(dv)!RxStrSplit(X0, c.s, c.lim)
+               [] c.m = "replace" -> LI(dv)!RxStrReplace(X0, c.s, [k |-> "str", s |-> c.rep])
+               [] c.m = "replacefn" -> LI(dv)!RxStrReplace(X0, c.s, [k |-> "fn"])
+    IN  IF k.thr # "" THEN [thr |-> k.thr, v |-> Undef, log |-> <<>>] ELSE Ok(Pair(x.v, x.R.li))
 File == ndJsonDeserialize("trace.ndjson")
 JInit == cs = None /\ blk \in {<<"judge", b>> : b \in 1..NB}
 JNext == /\ cs = None
@@ -39,5 +53,7 @@ Judge ==
     ELSE LET want == Expect(FALSE, cs)
          IN  Agrees(want, cs.got) \/
              LET d == Expect(TRUE, cs)
-             IN  PrintT("VJSON " \o ToJson([i |-> cs.i, skip |-> FALSE, want |-> want, dev |-> d, known |-> Agrees(d, cs.got)]))
+                 \* a repair may be in the tree while its finding is still open: all open deviations but one
+                 one == Agrees(d, cs.got) \/ \E x \in C10Dev : Agrees(ExpectV(OpenDev \ {x}, cs), cs.got)
+             IN  PrintT("VJSON " \o ToJson([i |-> cs.i, skip |-> FALSE, want |-> want, dev |-> d, known |-> one]))
 =============================================================================
